@@ -140,6 +140,7 @@ class Check:
                 'rule': 'evaluations = solver queries issued; distinct_nontrivial = distinct query texts (hash of the asserted formulas)',
                 'solver_results': STATS.by_result,
                 'solver_time_s': round(STATS.solver_time, 3),
+                'cvc5_crosscheck': STATS.cross,
                 'paths': self.paths,
                 'traces_validated_against_impl': self.traces_validated,
                 'functions_encoded': self.functions,
@@ -206,7 +207,7 @@ def _job_wrapper(args):
         res = {'obligations': [], 'candidates': [], 'paths': 0}
         err = f'{type(e).__name__}: {e}\n{traceback.format_exc()[-1500:]}'
     st = C.STATS
-    res['stats'] = {'queries': st.queries, 'solver_time': st.solver_time, 'shapes': list(st.shapes), 'by_result': st.by_result}
+    res['stats'] = {'queries': st.queries, 'solver_time': st.solver_time, 'shapes': list(st.shapes), 'by_result': st.by_result, 'cross': st.cross}
     res['error'] = err
     res['job'] = str(job)[:200]
     res['wall'] = time.time() - t0
@@ -238,6 +239,8 @@ def run_jobs(chk: Check, fn, jobs, procs=None):
         C.STATS.shapes.update(s['shapes'])
         for k, v in s['by_result'].items():
             C.STATS.by_result[k] = C.STATS.by_result.get(k, 0) + v
+        for k, v in s.get('cross', {}).items():
+            C.STATS.cross[k] = C.STATS.cross.get(k, 0) + v
         chk.paths += r.get('paths', 0)
         chk.traces_validated += r.get('validated', 0)
         if r['error']:
